@@ -379,6 +379,42 @@ def judge_tree(ctx, t, rng, full):
                      observed=len(calls), cls="dispatch", sig=["dispatch", kd])
             return
 
+    # 2b. a handler that RAISES: the caller sees exactly that exception, and the traversal
+    # stops there (nothing is dispatched after it, nothing is handed to the default path)
+    for kd in kinds[:3]:
+        first = next((n for n in want if type(n).__name__ == kd), None)
+        if first is None:
+            continue
+        for exc_cls in (AttributeError, KeyError, RuntimeError):
+            boom = exc_cls("handler failed on purpose")
+            for base in (V.NodeVisitor, V.NodeTransformer):
+                seen = []
+
+                def rec_visit(self, node, _seen=seen, _orig=base.visit):
+                    _seen.append(node)
+                    return _orig(self, node)
+
+                def handler(self, node, _boom=boom):
+                    raise _boom
+                cls = type("Raise_" + kd, (base,), {"visit": rec_visit, "visit_" + kd: handler})
+                ctx.count("evaluations")
+                ctx.count("raising_handlers")
+                got = None
+                try:
+                    cls().visit(node)
+                except BaseException as ex:   # noqa: B902 - the identity of the exception is the point
+                    got = ex
+                idx = next(i for i, n in enumerate(want) if n is first)
+                ok = got is boom and len(seen) == idx + 1 and all(a is b for a, b in zip(seen, want))
+                if not ok:
+                    ctx.fail(dict(case, kind=kd, exception=exc_cls.__name__, base=base.__name__),
+                             "an exception raised by a handler does not reach the caller unchanged "
+                             "(or the traversal went on after it)",
+                             expected="%s after %d dispatches" % (exc_cls.__name__, idx + 1),
+                             observed="%s after %d dispatches" % (type(got).__name__ if got else "no exception", len(seen)),
+                             cls="raising-handler", sig=["raise", exc_cls.__name__, base.__name__])
+                    return
+
     # 3. transformer without overrides / with one override ----------------------------------
     ctx.count("evaluations")
     before = decode(node)
